@@ -149,6 +149,8 @@ def flatten(docs, pred):
                 results.append(c)
                 if c.children:
                     c.children = inner(c.children, stack)
+                    for n in c.children:
+                        n.parent = c
         return results
 
     return inner(docs, [])
